@@ -1,7 +1,21 @@
 (* C01 — property theorems only.  Each is closed by [exact] of a lemma from proofs/C01_Proofs.v.
    All statements are over the real instance RNum of the inventory model (model/C01_Model.v), for every
-   input: any trajectory length and fuel-mass profile, any window, any fuel, LTO row, APU, aircraft class,
-   any of the 41 472 configurations, any emission-index arrays of the EI methods. *)
+   input: any trajectory length and fuel-mass profile, any window (any integer phase counts), any fuel, LTO row,
+   APU, aircraft class, any of the 41 472 configurations, any emission-index arrays of the EI methods.
+
+   HOW MUCH EACH THEOREM SAYS.
+   * Definitional read-backs — they restate how the MODEL is written and carry weight only through the
+     model-vs-implementation correspondence and the independent oracle run on every check:
+     C01_total_eq_parts, C01_total_fuel_eq_components (case splits over definitions that are exactly that sum),
+     C01_lto_amount_eq_index_times_fuel ([reflexivity]), C01_apu_amount_eq_index_times_fuel (one rewrite).
+   * Theorems with content beyond the definitions (induction over lists, telescoping, window / slice algebra, speciation
+     arithmetic, case analysis of the key sets): C01_segment_*, C01_nothing_outside_window, C01_fuel_counted_once_*,
+     C01_lto_mode_empty_window, C01_slice_bounds_stay_inside, the "exactly those components" group
+     (C01_apu_absent_contributes_nothing … C01_lto_all_modes_counted_in_lto_mode), C01_nox_speciation_sums_*,
+     C01_sox_split_sums, C01_*_pm_split, C01_amounts_nonneg_partial.
+   STATED GAP: "finite" (no overflow, no NaN — a binary64 notion) is NOT a theorem here; it is checked on the
+   implementation's outputs by the oracle on every run (known finding FC01a lives there).  The emission-index METHODS
+   are inputs of the model (property C12). *)
 From Coq Require Import List Bool ZArith Reals Lra Lia.
 From AV Require Import lib.Num model.C11_Model model.C01_Model proofs.C01_Lists proofs.C01_Proofs.
 Import ListNotations.
@@ -49,6 +63,46 @@ Theorem C01_total_fuel_eq_components : forall x : inputsR,
   I_total_fuel x = I_traj_fuel x + I_lto_fuel x + I_apu_fuel x + I_gse_fuel x.
 Proof. exact total_fuel_eq_components. Qed.
 Print Assumptions C01_total_fuel_eq_components.
+
+(* "exactly those components": a component that is off / absent contributes no amount, no index and no fuel; one that
+   contributes fuel contributes amounts; under trajectory accounting the LTO side contributes nothing for climb-out and
+   approach (fuel, indices, amounts), under lto accounting all four modes count *)
+Theorem C01_apu_absent_contributes_nothing : forall x : inputsR, apu_on (i_cfg x) = false \/ i_apu x = None ->
+  (forall s, I_apu_em x s = None /\ I_apu_idx x s = None) /\ I_apu_fuel x = 0.
+Proof. exact apu_absent_contributes_nothing. Qed.
+Print Assumptions C01_apu_absent_contributes_nothing.
+
+Theorem C01_apu_present_contributes_every_written_species : forall (x : inputsR) a, I_apu x = Some a ->
+  (forall s, apu_has (i_cfg x) s = true -> exists v, I_apu_em x s = Some v) /\ I_apu_fuel x = a_fuel a * 900.
+Proof. exact apu_present_contributes_every_written_species. Qed.
+Print Assumptions C01_apu_present_contributes_every_written_species.
+
+Theorem C01_apu_fuel_counted_only_with_amounts : forall x : inputsR, I_apu_fuel x <> 0 ->
+  exists v, I_apu_em x CO2 = Some v.
+Proof. exact apu_fuel_counted_only_with_amounts. Qed.
+Print Assumptions C01_apu_fuel_counted_only_with_amounts.
+
+Theorem C01_gse_off_contributes_nothing : forall x : inputsR, gse_on (i_cfg x) = false ->
+  (forall s, I_gse_em x s = None) /\ I_gse_fuel x = 0.
+Proof. exact gse_off_contributes_nothing. Qed.
+Print Assumptions C01_gse_off_contributes_nothing.
+
+Theorem C01_gse_fuel_counted_only_with_amounts : forall x : inputsR, I_gse_fuel x <> 0 ->
+  forall s, exists v, I_gse_em x s = Some v.
+Proof. exact gse_fuel_counted_only_with_amounts. Qed.
+Print Assumptions C01_gse_fuel_counted_only_with_amounts.
+
+Theorem C01_lto_climb_approach_excluded_in_trajectory_mode : forall x : inputsR, cd (i_cfg x) = CD_TRAJECTORY ->
+  tm_approach (lto_fuel (i_cfg x) (i_lto x)) = 0 /\ tm_climb (lto_fuel (i_cfg x) (i_lto x)) = 0
+  /\ forall s, tm_approach (gtm (I_lto_em x s)) = 0 /\ tm_climb (gtm (I_lto_em x s)) = 0
+               /\ tm_approach (gtm (I_lto_idx x s)) = 0 /\ tm_climb (gtm (I_lto_idx x s)) = 0.
+Proof. exact lto_climb_approach_excluded_in_trajectory_mode. Qed.
+Print Assumptions C01_lto_climb_approach_excluded_in_trajectory_mode.
+
+Theorem C01_lto_all_modes_counted_in_lto_mode : forall x : inputsR, cd (i_cfg x) = CD_LTO ->
+  lto_fuel (i_cfg x) (i_lto x) = tm_mul lto_tims (l_ff (i_lto x)).
+Proof. exact lto_all_modes_counted_in_lto_mode. Qed.
+Print Assumptions C01_lto_all_modes_counted_in_lto_mode.
 
 (* every kilogram counted once: trajectory + LTO CO2 (H2O) = EI * (trajectory fuel + LTO fuel) *)
 Theorem C01_fuel_counted_once_CO2 : forall x : inputsR, co2_on (i_cfg x) = true ->
@@ -195,3 +249,15 @@ Example C01_nonvacuous_nox_oracle :
   lookup NOx (i_orc_traj (ex_inputs CD_LTO)) = Some [10; 10; 12; 12; 10; 8]
   /\ length (i_sls (ex_inputs CD_LTO)) = 6%nat /\ traj_var_has (i_cfg (ex_inputs CD_LTO)) NOx = true.
 Proof. repeat split; reflexivity. Qed.
+
+(* the trajectory NOx closure is not 0+0+0 = 0 here: under lto accounting, at point 2 (inside the window, thrust
+   category APPROACH) NO is 12 x the approach NO fraction, non-zero, and the parts close on NOx at that point *)
+Example C01_nonvacuous_nox_closure_at_a_point :
+  nth 2 (gl (I_traj_idx (ex_inputs CD_LTO) NO)) 0 = 12 * tm_approach (@sp_no RNum)
+  /\ nth 2 (gl (I_traj_idx (ex_inputs CD_LTO) NO)) 0 <> 0
+  /\ nth 2 (gl (I_traj_idx (ex_inputs CD_LTO) NO)) 0 + nth 2 (gl (I_traj_idx (ex_inputs CD_LTO) NO2)) 0
+      + nth 2 (gl (I_traj_idx (ex_inputs CD_LTO) HONO)) 0 = nth 2 (gl (I_traj_idx (ex_inputs CD_LTO) NOx)) 0.
+Proof.
+  split; [exact ex_NO_at_2|]. split; [exact ex_NO_at_2_nonzero|].
+  exact (proj1 (nox_speciation_traj_unconditional (ex_inputs CD_LTO) (ex_lengths CD_LTO) 2%nat)).
+Qed.
